@@ -1301,7 +1301,12 @@ func (c *Conn) writeResponse(code int, enhCode EnhancedCode, text ...string) {
 
 	lastLineIndex := len(text) - 1
 	for i := 0; i < lastLineIndex; i++ {
-		c.text.PrintfLine("%d-%v", code, text[i])
+		// RFC 2034 section 4: the enhanced code goes on every line.
+		if enhCode == NoEnhancedCode {
+			c.text.PrintfLine("%d-%v", code, text[i])
+		} else {
+			c.text.PrintfLine("%d-%v.%v.%v %v", code, enhCode[0], enhCode[1], enhCode[2], text[i])
+		}
 	}
 	if enhCode == NoEnhancedCode {
 		c.text.PrintfLine("%d %v", code, text[lastLineIndex])
